@@ -51,6 +51,7 @@ func newReplayer(ld *Loaded, prop *Property) (*replayer, error) {
 	replace := map[string]string{}
 	replace[filepath.Join(repoDir, "internal", "vx", "vx.go")] = filepath.Join(verifDir, "vx", "vx.go")
 	replace[filepath.Join(repoDir, "internal", "hash", "memhash.go")] = filepath.Join(verifDir, "vx", "memhash_replay.go.txt")
+	replace[filepath.Join(repoDir, "internal", "vxsql", "vxsql.go")] = filepath.Join(verifDir, "vxsql", "vxsql.go")
 	for _, d := range prop.Dirs {
 		files, _ := filepath.Glob(filepath.Join(verifDir, "harness", d, "*.go"))
 		sort.Strings(files)
